@@ -85,7 +85,7 @@ class PathResult:
         return self.outcome[0] == 'panic'
 
 
-def merge_paths(paths):
+def merge_paths(paths, sx=None):
     """Join paths that end the same way and whose conditions differ in the polarity of exactly one literal:
     (G and a) or (G and not a) == G.  Forks on a test whose outcome does not influence anything (a classification
     that one caller ignores, a guard duplicated by a helper) would otherwise show up as unrelated residual
@@ -124,7 +124,78 @@ def merge_paths(paths):
                 if changed:
                     break
         out.extend(g)
-    return out
+    return merge_minmax(out, sx)
+
+
+def _zip_minmax(r1, r2, p, q):
+    """r1 (taken when p < q / p <= q) and r2 (otherwise) merged leaf-wise: a leaf pair (p, q) is min(p, q),
+    (q, p) is max(p, q); any other difference -> None"""
+    if r1 == r2:
+        return r1
+    if r1 == p and r2 == q:
+        return ('op', 'min', (p, q))
+    if r1 == q and r2 == p:
+        return ('op', 'max', (p, q))
+    if r1 is None or r2 is None or r1[0] != r2[0]:
+        return None
+    k = r1[0]
+    if k == 'adt' and r1[1] == r2[1] and r1[2] == r2[2] and len(r1[3]) == len(r2[3]):
+        fs = [_zip_minmax(a, b, p, q) for a, b in zip(r1[3], r2[3])]
+        return None if any(f is None for f in fs) else ('adt', r1[1], r1[2], tuple(fs))
+    if k == 'tuple' and len(r1[1]) == len(r2[1]):
+        fs = [_zip_minmax(a, b, p, q) for a, b in zip(r1[1], r2[1])]
+        return None if any(f is None for f in fs) else ('tuple', tuple(fs))
+    if k == 'op' and r1[1] == r2[1] and len(r1[2]) == len(r2[2]):
+        fs = [_zip_minmax(a, b, p, q) for a, b in zip(r1[2], r2[2])]
+        return None if any(f is None for f in fs) else ('op', r1[1], tuple(fs))
+    return None
+
+
+def merge_minmax(paths, sx=None):
+    """`if q < p { p = q }` and `p.min(q)` are the same function: two returning paths that differ in the polarity
+    of one comparison literal p < q (or p <= q) and whose results differ only by p on one side and q on the other
+    are joined into one path returning min / max.  Exact (a case split is undone), and it keeps the summaries of
+    clamped values in the form the rank / bound rules read."""
+    def key(p):
+        return (p.outcome, repr(sorted(p.effects.items(), key=lambda kv: kv[0])), tuple(p.events), tuple(p.unknowns), tuple(p.loops))
+    changed = True
+    paths = list(paths)
+    while changed:
+        changed = False
+        for i in range(len(paths)):
+            pi = paths[i]
+            if not pi.is_ret():
+                continue
+            for j in range(len(paths)):
+                pj = paths[j]
+                if i == j or not pj.is_ret():
+                    continue
+                try:
+                    if key(pi) != key(pj):
+                        continue
+                except TypeError:
+                    continue
+                si, sj = set(pi.guard), set(pj.guard)
+                d1, d2 = si - sj, sj - si
+                if len(d1) != 1 or len(d2) != 1:
+                    continue
+                (a1, p1), = d1
+                (a2, p2), = d2
+                if a1 != a2 or p1 == p2 or not p1 or a1[0] != 'op' or a1[1] not in ('lt', 'le') or len(a1[2]) != 2:
+                    continue
+                if sx is None or not sx.total_order_literal(a1):
+                    continue     # only integer comparisons: on floats / generic elements the two forms differ for NaN
+                merged = _zip_minmax(pi.ret, pj.ret, a1[2][0], a1[2][1])
+                if merged is None or merged == pi.ret:
+                    continue
+                pi.guard = [l for l in pi.guard if l != (a1, p1)]
+                pi.ret = merged
+                del paths[j]
+                changed = True
+                break
+            if changed:
+                break
+    return paths
 
 
 def canon_literal(cond):
@@ -177,6 +248,7 @@ class Summarizer:
         self.assume_no_overflow = assume_no_overflow
         self.max_paths = max_paths
         self.merge = True
+        self.int_cmp_atoms = set()
         self.nfid = 0
         self.nfresh = 0
         self.nheap = 0
@@ -239,6 +311,39 @@ class Summarizer:
         self._params = params
         return self.run(st, params)
 
+    def run_callable(self, base_def_id, callable_value, args, cells=None):
+        """All paths of one call of a callable value (closure or function item, as found in an event or a cell)
+        on the given argument values, summarised like a function: -> [PathResult]."""
+        insts = self.facts.root_instance(base_def_id)
+        st = State()
+        st.cells.update(cells or {})
+        self.push_frame(st, insts, 0, None, None)
+        tmp = self.new_heap(None, None)
+
+        def then(sx_, s, v):
+            s.done = ('ret', v)
+            return [s]
+        r = self.call_closure_value(st, st.frames[-1], callable_value, ('tuple', tuple(args)), (tmp, ()), ('then', then))
+        if r is None:
+            raise Unsupported('not a callable value: %s' % T.show(callable_value)[:60])
+        results = []
+        work = [s for s in r]
+        steps = 0
+        while work:
+            cur = work.pop()
+            if cur.done is not None:
+                results.append(self.finish(cur, []))
+                continue
+            steps += 1
+            if steps > 200000:
+                raise Unsupported('step budget exceeded in callable')
+            try:
+                nxt = self.step(cur)
+            except Infeasible:
+                nxt = []
+            work.extend(nxt)
+        return merge_paths(results, self) if self.merge else results
+
     def push_frame(self, st, insts, inst_idx, ret_dest, ret_target, promoted=None):
         inst = insts[inst_idx]
         fr = Frame()
@@ -288,7 +393,7 @@ class Summarizer:
                     else:
                         work.append(n)
                 break
-        return merge_paths(results) if self.merge else results
+        return merge_paths(results, self) if self.merge else results
 
     def finish(self, st, params):
         out = st.done
@@ -467,11 +572,17 @@ class Summarizer:
                 v = self.read_cell(st, cell, path)
                 if v[0] == 'sym':
                     ty = self.symty.get(v[1])
-                    if ty is None or ty.get('k') not in ('ref', 'rawptr'):
+                    if ty is not None and ty.get('k') not in ('ref', 'rawptr', 'param', 'alias', 'other'):
                         raise Unsupported('deref of non-reference symbol %s' % v[1])
-                    inner = ty.get('inner')
+                    # a value typed by a generic parameter / associated type in the helper that produced it
+                    # (`Option<I::Item>`), dereferenced where the instantiation is known to be a reference
+                    inner = (ty or {}).get('inner')
                     cid = self.new_heap(None, inner)
                     st.cells[cid] = self.named(v[1] + '*', inner)
+                    if ty is None or ty.get('k') not in ('ref', 'rawptr'):
+                        # the element events of a by-reference iteration show the pointee (as `fresh_elem` does when
+                        # the element type is known to be a reference at the `next()` site)
+                        st.events = [(e[0], e[1], st.cells[cid]) if (e[0] == 'next' and len(e) == 3 and e[2] == v) else e for e in st.events]
                     nv = ('ref', cid, ())
                     self.write_cell(st, cell, path, nv, log=False)
                     v = nv
@@ -672,6 +783,8 @@ class Summarizer:
                 return ('bool', True)
             if (n == 'gt' and a == zero) or (n == 'lt' and b == zero):
                 return ('bool', False)
+        if n in ('lt', 'le', 'gt', 'ge') and k in INT_BITS:
+            self.int_cmp_atoms.add(canon_literal(op(n, a, b))[0])
         if name.endswith('WithOverflow'):
             val = op(n, a, b)
             flag = self.overflow_flag(n, a, b, opty)
@@ -789,6 +902,168 @@ class Summarizer:
         self.assume(s_false, cond, False)
         return [(s_true, True), (s_false, False)]
 
+    # ------------------------------------------------------------------ if-conversion of clamps
+    def ipdom(self, body, bb):
+        """immediate post-dominator of block bb in the (non-cleanup) CFG of `body`, or None"""
+        cache = body.setdefault('_ipdom', {})
+        if bb in cache:
+            return cache[bb]
+        blocks = body['blocks']
+
+        def succs(i):
+            t = blocks[i]['term']
+            k = t['k']
+            if k in ('goto', 'drop'):
+                return [t['target']]
+            if k == 'switch':
+                return [b for _v, b in t['arms']] + [t['otherwise']]
+            if k in ('assert', 'call'):
+                return [t['target']] if t.get('target') is not None else []
+            return []
+        n = len(blocks)
+        EXIT = n
+        pd = {i: set(range(n + 1)) for i in range(n)}
+        pd[EXIT] = {EXIT}
+        changed = True
+        rounds = 0
+        while changed and rounds < 50:
+            changed = False
+            rounds += 1
+            for i in range(n - 1, -1, -1):
+                ss = succs(i) or [EXIT]
+                new = set.intersection(*[pd[x] for x in ss]) | {i}
+                if new != pd[i]:
+                    pd[i] = new
+                    changed = True
+        cands = pd[bb] - {bb}
+        res = None
+        for c in cands:
+            if c != EXIT and all((c2 == c) or (c2 in pd[c]) for c2 in cands):
+                res = c
+        cache[bb] = res
+        return res
+
+    def is_int_term(self, t, depth=0):
+        if depth > 12:
+            return False
+        k = t[0]
+        if k == 'int':
+            return True
+        if k == 'sym':
+            ty = self.symty.get(t[1])
+            return ty is not None and ty.get('k') in INT_BITS
+        if k == 'op':
+            n = t[1]
+            if n in ('f2i', 'len', 'i2i'):
+                return True
+            if n in ('add', 'sub', 'mul', 'min', 'max', 'ssub', 'wsub', 'rem', 'div') and len(t[2]) == 2:
+                return self.is_int_term(t[2][0], depth + 1) and self.is_int_term(t[2][1], depth + 1)
+        if k == 'call' and t[1] == 'iter_count':
+            return True
+        return False
+
+    def total_order_literal(self, atom):
+        """the comparison was evaluated on an integer type (recorded when the MIR BinaryOp was read), or both
+        operands are visibly integer-valued"""
+        if atom in self.int_cmp_atoms:
+            return True
+        return atom[0] == 'op' and len(atom[2]) == 2 and self.is_int_term(atom[2][0]) and self.is_int_term(atom[2][1])
+
+    def try_clamp_merge(self, st, fr, term, d, arms):
+        """`if p < q { x = p }` (or with the roles exchanged, directly or through mem::replace / swap of a local)
+        rejoins immediately: run both arms up to the join; if neither forks, calls into local code, panics or
+        records an event, and the states differ only in values that are p on one side and q on the other, continue
+        with ONE state holding min / max there.  The summary is then that of `x.min(q)`; nothing is assumed."""
+        if getattr(self, '_in_clamp', False):
+            return None
+        atom, pol = canon_literal(d)
+        if atom[0] != 'op' or atom[1] not in ('lt', 'le') or len(atom[2]) != 2 or self.known(st, d) is not None:
+            return None
+        # only where < is total: on floats (or a generic PartialOrd element) `if p < q { p } else { q }` and min differ
+        # for NaN / incomparable values
+        if not self.total_order_literal(atom):
+            return None
+        join = self.ipdom(fr.body, fr.bb)
+        if join is None or fr.promoted_of is not None or st.active_loops:
+            return None
+        depth = len(st.frames)
+        ends = {}
+        self._in_clamp = True
+        try:
+            for b in (True, False):
+                s2 = st.copy()
+                self.assume(s2, d, b)
+                f2 = s2.frames[-1]
+                target = term['otherwise']
+                for v, bb in arms:
+                    if v == int(b):
+                        target = bb
+                self.goto(s2, f2, target)
+                steps = 0
+                while True:
+                    top = s2.frames[-1]
+                    if len(s2.frames) == depth and top.bb == join and top.si == 0:
+                        break
+                    steps += 1
+                    if steps > 60 or len(s2.frames) != depth:
+                        return None
+                    try:
+                        nxt = self.step(s2)
+                    except (Infeasible, Unsupported):
+                        return None
+                    if len(nxt) != 1 or nxt[0].done is not None:
+                        return None
+                    s2 = nxt[0]
+                ends[b] = s2
+        finally:
+            self._in_clamp = False
+        sT, sF = ends[True], ends[False]
+        base = len(st.guard)
+        if len(sT.guard) != base + 1 or len(sF.guard) != base + 1:
+            return None
+        if sT.events != sF.events or sT.unknowns != sF.unknowns or sT.loops != sF.loops or (sT.writes or []) and False:
+            return None
+        if len(sT.events) != len(st.events):
+            return None
+        for c in set(sT.cells) ^ set(sF.cells):
+            # a cell that exists on one arm only (a temporary): same argument
+            sT.cells.setdefault(c, UNINIT)
+            sF.cells.setdefault(c, UNINIT)
+        # the literal as assumed: `atom` holds with polarity `pol` when d is true
+        p_, q_ = atom[2]
+        merged_cells = {}
+        any_diff = False
+        for c in sT.cells:
+            a, b_ = sT.cells[c], sF.cells[c]
+            if a == b_:
+                continue
+            any_diff = True
+            if a == UNINIT or b_ == UNINIT or a is UNINIT or b_ is UNINIT:
+                # initialised on one arm only: by definite initialisation it cannot be read after the join
+                merged_cells[c] = UNINIT
+                continue
+            # value when (p < q) holds / does not hold
+            v_lt, v_ge = (a, b_) if pol else (b_, a)
+            m = _zip_minmax(v_lt, v_ge, p_, q_)
+            if m is None:
+                return None
+            merged_cells[c] = m
+        if not any_diff:
+            out = sT
+            out.guard = list(st.guard)
+            out.gset = set(st.gset)
+            return out
+        out = sT
+        out.guard = list(st.guard)
+        out.gset = set(st.gset)
+        for c, m in merged_cells.items():
+            out.cells[c] = m
+        if out.writes is not None and sF.writes is not None:
+            for w in sF.writes:
+                if w not in out.writes:
+                    out.writes.append(w)
+        return out
+
     def exec_terminator(self, st, fr, term):
         k = term['k']
         if k == 'goto':
@@ -813,6 +1088,9 @@ class Summarizer:
                         return [self.goto(st, fr, bb)]
                 return [self.goto(st, fr, term['otherwise'])]
             if term['dty'].get('k') == 'bool':
+                merged = self.try_clamp_merge(st, fr, term, d, arms)
+                if merged is not None:
+                    return [merged]
                 out = []
                 for s2, b in self.fork_bool(st, d):
                     f2 = s2.frames[-1]
